@@ -170,6 +170,10 @@ def make(d, r, n, seed, fam, prof, s, exps=None):
     g = gen.rng('C16tt', d, r, n, seed, fam)
     rr = [1] + [1 if fam == 'rank1s' else r] * (d - 1) + [1]
     Y = []
+    if fam == 'rot':
+        # orthogonally conjugated block-diagonal cores: r (nearly) orthogonal rank-1 terms; bond k is rotated by an
+        # orthogonal Q_k on both sides, which cancels in the chain - perfectly conditioned at any d, signed entries
+        Qs = [None] + [np.linalg.qr(gen.rng('C16rot', d, r, n, seed, k).normal(size=(rr[k], rr[k])))[0] for k in range(1, d)] + [None]
     for k in range(d):
         shp = (rr[k], n, rr[k + 1])
         if fam == 'pos':
@@ -181,16 +185,6 @@ def make(d, r, n, seed, fam, prof, s, exps=None):
             if not G.any():
                 G[0, 0, 0] = 1.0
         elif fam == 'rot':
-            G = np.zeros(shp)       # built below
-        else:
-            raise ValueError(fam)
-        Y.append(G)
-    if fam == 'rot':       # orthogonally conjugated block-diagonal cores: r mutually (nearly) orthogonal rank-1 terms,
-        # bond k rotated by an orthogonal Q_k on both sides (Q_k^T Q_k = I cancels in the chain)
-        Y = []
-        Qs = [None] + [np.linalg.qr(gen.rng('C16rot', d, r, n, seed, k).normal(size=(rr[k], rr[k])))[0] for k in range(1, d)] + [None]
-        for k in range(d):
-            shp = (rr[k], n, rr[k + 1])
             G = np.zeros(shp)
             for a in range(max(shp[0], shp[2])):
                 u = np.zeros(n)
@@ -201,7 +195,9 @@ def make(d, r, n, seed, fam, prof, s, exps=None):
                 G = np.einsum('ab,bnc->anc', Qs[k].T, G)
             if Qs[k + 1] is not None:
                 G = np.einsum('anb,bc->anc', G, Qs[k + 1])
-            Y.append(G)
+        else:
+            raise ValueError(fam)
+        Y.append(G)
     ex = exponents(d, prof, s, seed) if exps is None else list(exps)
     Y = [np.ldexp(G, e) for G, e in zip(Y, ex)]
     return Y, ex
@@ -699,12 +695,14 @@ def cases(tier, seed):
                         for ri, rel in enumerate(rels):
                             if d >= 500 and not big and (ri + pi) % 3:
                                 continue
-                            if d == 3000 and not big and r > 1:
+                            if d == 3000 and ((not big and r > 1) or (big and (ri + pi) % 2)):
                                 continue
                             yield 'C16.accuracy.relative_distance', dict(base, rel=rel)
                         if fam in ('pos', 'rot', 'gauss', 'rank1s') and (d < 3000 or big or (r == 1 and prof in ('up', 'down'))):
                             for e, inflate in ((1e-6, 'dup'), (1e-3, 'decay'), (1e-10, 'none')):
                                 if d >= 500 and not big and inflate == 'none':
+                                    continue
+                                if d == 3000 and big and (inflate == 'none' or pi % 2):
                                     continue
                                 if inflate == 'decay' and r == 1:
                                     continue
